@@ -284,6 +284,20 @@ def check_clients(ctx):
     if got != ref:
         ctx.fail_input(case, 'a seeded Rejection run on the multiprocessing client differs from the native client')
     ctx.count('clients', 'native-vs-multiprocessing')
+    # a multi-round sampler on a client that keeps several batches in flight (deterministic stand-in for slow worker processes):
+    # the seeded result is the native client's
+    import random
+    from props import c04
+    for k in range(ctx.budget(2, 10)):
+        c = dict(sampler='smc', b=ctx.rng.randint(2, 4), n=ctx.rng.randint(4, 8), form='thresholds', value=[1.5, 0.9], prior='uniform',
+                 seed=ctx.rng.randrange(2**32), mpb=ctx.rng.randint(3, 5), kind='clients-smc')
+        ctx.case(c, True)
+        base = c04.run_sampler(dict(c, mpb=1), native.Client())[0]
+        lazy = c04.ScheduledClient(random.Random(k), 0, 0, cores=2)
+        got2 = c04.run_sampler(c, lazy)[0]
+        if got2 != base:
+            ctx.fail_input(c, 'a seeded multi-round SMC run on a client with %d batches in flight differs from the native client' % c['mpb'])
+        ctx.count('clients', 'native-vs-lazy-parallel (SMC)')
 
 
 def run(ctx):
